@@ -12,6 +12,8 @@ pub mod c10;
 pub mod c11;
 pub mod c12;
 pub mod c13;
+pub mod c14;
+pub mod c16;
 pub mod c28;
 pub mod workload;
 
@@ -36,6 +38,9 @@ pub fn all() -> Vec<PropDef> {
         p!("C11", c11),
         p!("C12", c12),
         p!("C13", c13),
+        PropDef { id: "C14", cases: c14::cases, run: c14::run14 },
+        PropDef { id: "C15", cases: c14::cases, run: c14::run15 },
+        p!("C16", c16),
         p!("C28", c28),
     ]
 }
